@@ -405,8 +405,13 @@ class Emitter:
         k = n['kind']
         if k == 'CompoundStmt':
             out = ['{']
+            if not hasattr(self, 'block_guards'):
+                self.block_guards = []
+            self.block_guards.append([])
             for s in self.kids(n):
                 out += ['  ' + l for l in self.stmt(s)]
+            for rel in reversed(self.block_guards.pop()):
+                out.append('  ' + rel)
             out.append('}')
             return out
         if k == 'DeclStmt':
@@ -549,16 +554,28 @@ class Emitter:
                 # lock discipline as ghost state: a scoped guard declared at the outermost level of the function body holds its lock from here to the end of
                 # the function (that IS its scope), so `acquired` is recorded here and nothing has to be emitted at the returns; a guard in a nested scope is refused
                 tl = getattr(self, 'top_level_stmt', None)
-                if not (tl is not None and tl.get('kind') == 'DeclStmt' and d in self.kids(tl)):
-                    raise Unsupported('scoped guard %s in a nested scope (guard_ghost handles function-scope guards only)' % nm)
+                nested = not (tl is not None and tl.get('kind') == 'DeclStmt' and d in self.kids(tl))
+                if nested and not self.spec.get('guard_ghost_release'):
+                    raise Unsupported('scoped guard %s in a nested scope (give guard_ghost_release to model its release at the end of the block)' % nm)
                 u = ks[0] if ks else None
                 while u is not None and u.get('kind') in ('ExprWithCleanups', 'CXXBindTemporaryExpr', 'MaterializeTemporaryExpr') and self.kids(u):
                     u = self.kids(u)[0]
                 if u is None or u.get('kind') != 'CXXConstructExpr' or not self.kids(u):
                     raise Unsupported('scoped guard %s without a lock argument' % nm)
                 self.rules['raii_guard_to_ghost_acquire'] += 1
-                pre, e = self.with_pre(lambda: self.lvalue_addr(self.kids(u)[0]))
-                return pre + ['%s(%s); /* scoped guard %s: held until the function returns */' % (gg, e, nm)]
+                ga = self.kids(u)
+                pre, e = self.with_pre(lambda: self.lvalue_addr(ga[0]))
+                cond = ''
+                if len(ga) >= 2 and ga[1].get('kind') != 'CXXDefaultArgExpr':
+                    # f8_scoped_lock_impl(mutex, disable): the lock is taken only when `disable` is false
+                    pre2, dis = self.with_pre(lambda: self.expr(ga[1]))
+                    pre += pre2
+                    cond = 'if (!(%s)) ' % dis
+                if nested:
+                    # released when control leaves the enclosing block by falling off its end (a `return` inside the block evaluates its expression while the lock is held)
+                    self.block_guards[-1].append('%s(%s); /* scoped guard %s goes out of scope */' % (self.spec['guard_ghost_release'], e, nm))
+                    return pre + ['%s%s(%s); /* scoped guard %s: held to the end of this block */' % (cond, gg, e, nm)]
+                return pre + ['%s%s(%s); /* scoped guard %s: held until the function returns */' % (cond, gg, e, nm)]
             self.rules['drop_raii_guard'] += 1
             for c in ks:
                 pass
